@@ -4,6 +4,7 @@
     the implementation by every run of the check. *)
 From Coq Require Import String Ascii List Bool Arith NArith ZArith.
 From Raven Require Import Base.GoStr Model.Search Model.SearchText Spec.Search Model.SearchClass.
+From Raven Require Spec.SeqSet.
 Import ListNotations.
 Local Open Scope Z_scope.
 
@@ -18,6 +19,8 @@ Definition wit_m3 : str :=
 Definition wit_mb : list smsg :=
   [ mk_smsg 1 [S_ "\Seen"] wit_m1 (2026, 10, 1); mk_smsg 2 [S_ "foobar"] wit_m2 (2026, 10, 1); mk_smsg 3 [] wit_m3 (2026, 10, 1) ].
 
+Definition sone (n : Z) : Spec.SeqSet.item := Spec.SeqSet.One (Spec.SeqSet.Num n).
+Definition srange (a b : Z) : Spec.SeqSet.item := Spec.SeqSet.Range (Spec.SeqSet.Num a) (Spec.SeqSet.Num b).
 Definition t_ : str := S_ "t".
 Definition search_line (ks : list key) (mb : list smsg) : reply :=
   search_cmd (t_ :: S_ "SEARCH" :: fields (print_prog ks)) (to_msgs mb).
@@ -30,12 +33,16 @@ Definition refutes (c : cls) (ks : list key) (mb : list smsg) : Prop :=
 
 Ltac witness ks := exists ks, wit_mb; vm_compute; repeat split; reflexivity.
 
-Lemma refuted_comma_set : exists ks mb, refutes CCommaSet ks mb.
-Proof. witness [KSeq [SOne (SNum (S_ "1")); SOne (SNum (S_ "3"))]]. Qed.
-Lemma refuted_star : exists ks mb, refutes CStar ks mb.
-Proof. witness [KSeq [SOne SStar]]. Qed.
-Lemma refuted_reversed_range : exists ks mb, refutes CReversedRange ks mb.
-Proof. witness [KSeq [SRange (SNum (S_ "3")) (SNum (S_ "1"))]]. Qed.
+(** regression (fix 32751d9, SEARCH sets follow RFC 3501): a comma list was an
+    unknown token (matched everything), "*" matched everything, a reversed range
+    nothing; the former witnesses meet the specification *)
+Lemma sets_repaired :
+  search_line [KSeq [sone 1; sone 3]] wit_mb = ROk [1; 3]
+  /\ search_line [KSeq [Spec.SeqSet.One Spec.SeqSet.Star]] wit_mb = ROk [3]
+  /\ search_line [KSeq [srange 3 1]] wit_mb = ROk [1; 2; 3]
+  /\ search_line [KUid [Spec.SeqSet.Range (Spec.SeqSet.Num 2) Spec.SeqSet.Star; sone 1]; KNot (KSeq [sone 2])] wit_mb = ROk [1; 3]
+  /\ classify_line [KUid [Spec.SeqSet.Range (Spec.SeqSet.Num 2) Spec.SeqSet.Star; sone 1]; KNot (KSeq [sone 2])] wit_mb = None.
+Proof. vm_compute. repeat split; reflexivity. Qed.
 (** regression (fix "NOT and OR take complete search keys"): NOT / OR took one
     token plus at most one argument and a parenthesised list was an unknown
     token that matched everything; the former witnesses, and nested forms, now
@@ -73,8 +80,8 @@ Proof. witness [KHdr HSubject (S_ "Hello  World")]. Qed.
 Lemma uid_search_repaired :
   uid_search_line [KUn FSeen] wit_mb = ROk [2; 3]
   /\ reply_ok (uid_search_line [KUn FSeen] wit_mb) (spec_uid_search [KUn FSeen] wit_mb) = true
-  /\ uid_search_line [KUid [SOne (SNum (S_ "2"))]] wit_mb = ROk [2]
-  /\ reply_ok (uid_search_line [KUid [SOne (SNum (S_ "2"))]] wit_mb) (spec_uid_search [KUid [SOne (SNum (S_ "2"))]] wit_mb) = true
+  /\ uid_search_line [KUid [sone 2]] wit_mb = ROk [2]
+  /\ reply_ok (uid_search_line [KUid [sone 2]] wit_mb) (spec_uid_search [KUid [sone 2]] wit_mb) = true
   /\ uid_search_line [KNot (KHas FSeen); KHdr HFrom (S_ "bob")] wit_mb = ROk [2].
 Proof. vm_compute. repeat split; reflexivity. Qed.
 
@@ -109,12 +116,12 @@ Proof. vm_compute. repeat split; reflexivity. Qed.
     over such mailboxes as over any other) *)
 Definition copy_mb : list smsg :=
   [ mk_smsg 1 [S_ "\Recent"] wit_m2 (2026, 10, 1); mk_smsg 2 [S_ "\Recent"] wit_m2 (2026, 10, 2); mk_smsg 3 [S_ "\Recent"] wit_m3 (2026, 10, 2) ].
-Definition one_ (d : string) : key := KSeq [SOne (SNum (S_ d))].
+Definition one_ (n : Z) : key := KSeq [sone n].
 Lemma copied_entries_on_their_own :
-  classify_line [KOr (one_ "2") (KHdr HFrom (S_ "carol"))] copy_mb = None
-  /\ search_line [one_ "1"] copy_mb = ROk [1] /\ search_line [one_ "2"] copy_mb = ROk [2]
-  /\ search_line [KNot (one_ "1")] copy_mb = ROk [2; 3]
-  /\ search_line [KOr (one_ "2") (KHdr HFrom (S_ "carol"))] copy_mb = ROk [2; 3]
-  /\ search_line [KUid [SRange (SNum (S_ "2")) (SNum (S_ "3"))]] copy_mb = ROk [2; 3]
+  classify_line [KOr (one_ 2) (KHdr HFrom (S_ "carol"))] copy_mb = None
+  /\ search_line [one_ 1] copy_mb = ROk [1] /\ search_line [one_ 2] copy_mb = ROk [2]
+  /\ search_line [KNot (one_ 1)] copy_mb = ROk [2; 3]
+  /\ search_line [KOr (one_ 2) (KHdr HFrom (S_ "carol"))] copy_mb = ROk [2; 3]
+  /\ search_line [KUid [srange 2 3]] copy_mb = ROk [2; 3]
   /\ search_line [KDate false COn (S_ "1", 10, S_ "2026")] copy_mb = ROk [1].
 Proof. vm_compute. repeat split; reflexivity. Qed.
